@@ -5,6 +5,12 @@ GLUE = dict(extra_prop_files=["props/Glue.v"])      # the tie of Blocks.v to the
 INITV = ["props/InitVars.v"]                        # the effect table of every init_vars (T-initvars)
 INITV_TRUST = ["translator initvars.py (T7): the init_vars of blocks/*.py read as a list of effects (bind a new dictionary of "
                "given-or-new variables, drop the next states, clamp under a flag) -> gen/InitVars.v; any other statement fails closed"]
+VALG = ["props/ValidGen.v"]                       # Validity.v proved equal to the regenerated Network.is_valid (T-validity)
+VALG_TRUST = ["translator validity.py (T10): Network.is_valid executed symbolically from its AST into gen/ValidGen.v (passes, "
+              "conditions, thresholds, messages, counting dictionary, isinstance over the class hierarchy); Validity.v is PROVED "
+              "equal to it (props/ValidGen.v); trusted: its idiom table (self.links / in_links / out_links / origins / destinations "
+              "are Graph.v's look-ups, `KEY in data` = the node entry has that attachment, an edge triple is truthy, a message is "
+              "identified by its constant text, a counted object is kind + identity)"]
 LOOK = ["props/Lookups.v"]                         # pinned source of the derived look-ups and link views (T-lookups)
 LOOK_TRUST = ["translator lookups.py (T8): the bodies of Network's derived look-ups, `elements`, `states`, `next_states` and of the "
               "two link views pinned as normalised source text (a pin, not a translation: any edit breaks it)"]
@@ -44,11 +50,11 @@ PROPS = {
     "C16": dict(GLUE, prop_file="props/C16.v", generators=ENG + ["T-blocks"] + ["T-tables"], module="harness.p_dyn",
                 slice="ToFunction.v with declared parameters vs the compiled function",
                 trusted=DYN_TRUST + ["ToFunction.v (hand-written; tied by the compile correspondence)"]),
-    "C06": dict(extra_prop_files=LOOK, prop_file="props/C06.v", generators=["T-tables", "T-lookups"], module="harness.p_valid",
+    "C06": dict(extra_prop_files=LOOK + VALG, prop_file="props/C06.v", generators=["T-tables", "T-lookups", "T-validity"], module="harness.p_valid",
                 slice="Validity.v (verdict, message kinds) vs Network.is_valid on exhaustive small graphs and random graphs",
-                trusted=["no axioms", "Validity.v / Graph.v as models of Network.is_valid and the networkx graph (tied by the correspondence)",
+                trusted=["no axioms", "Graph.v as model of the networkx graph (tied by the correspondence); Validity.v is hand-written and PROVED equal to the regenerated is_valid",
                          "the nine conditions as formalised in specs/C06_spec.v",
-                         "translator facts.py (report / raise sites of Network.is_valid -> gen/Tables.v)"]),
+                         "translator facts.py (report / raise sites of Network.is_valid -> gen/Tables.v)"] + VALG_TRUST),
     "C08": dict(extra_prop_files=LOOK, prop_file="props/C08.v", generators=["T-tables", "T-lookups"], module="harness.p_hist",
                 slice="Construct.v + Cache.v (generated invalidation table) vs Network on histories of calls and reads",
                 trusted=["no axioms", "Construct.v / Cache.v as models of networkx.DiGraph, functools.cached_property and "
@@ -57,11 +63,11 @@ PROPS = {
     "C09": dict(extra_prop_files=LOOK, prop_file="props/C09.v", generators=["T-lookups"], module="harness.p_hist",
                 slice="Construct.v vs Network on construction histories and the malformed-path stream",
                 trusted=["no axioms", "Construct.v as model of the construction calls on networkx.DiGraph (tied by the history correspondence)"] + LOOK_TRUST),
-    "C07": dict(GLUE, prop_file="props/C07.v", generators=ENG + ["T-blocks"], module="harness.p_dyn",
+    "C07": dict(extra_prop_files=GLUE["extra_prop_files"] + VALG, prop_file="props/C07.v", generators=ENG + ["T-blocks", "T-validity"], module="harness.p_dyn",
                 slice="Blocks.v trees vs NumPy/CasADi; every graph the implementation's is_valid accepts is stepped and compiled",
                 trusted=DYN_TRUST + ["PARTIAL: Python exceptions outside the modelled failure points, NumPy/CasADi shape rules and IEEE "
                                      "overflow / rounding are covered by the dynamic runs only (finiteness of a whole step is proved "
-                                     "over the exact partial reals NumPR.v)", "ToFunction.v (hand-written; tied by the compile correspondence)"]),
+                                     "over the exact partial reals NumPR.v)", "ToFunction.v (hand-written; tied by the compile correspondence)"] + VALG_TRUST),
     "C10": dict(GLUE, prop_file="props/C10.v", generators=ENG + ["T-blocks"], module="harness.p_dyn",
                 slice="Blocks.v trees vs CasADi functions; Jacobian sparsity vs variable sets of the Spec trees",
                 trusted=DYN_TRUST + ["locality is stated on Spec.v values; model_locality composes it with C01 for the regenerated engines"]),
